@@ -96,8 +96,18 @@ def split_top(s, sep=','):
     return out
 
 
+_sg_cache = {}
+
+
 def strip_generics(path):
     """Remove every balanced <...> group (and a preceding '::') from a path."""
+    r = _sg_cache.get(path)
+    if r is None:
+        r = _sg_cache[path] = _strip_generics(path)
+    return r
+
+
+def _strip_generics(path):
     out = []
     depth = 0
     k = 0
